@@ -7,7 +7,7 @@ env = dict(os.environ)
 env.pop("NEMO_GUARDRAILS_VERIF", None)
 repo = sys.argv[1] if len(sys.argv) > 1 else "/repo"
 subprocess.run(["/venv/bin/python", "-m", "pytest", "-ra", "-q", "-p", "no:cacheprovider", "--timeout=900",
-                "--continue-on-collection-errors", "--junitxml=" + out], cwd=repo, env=env,
+                "--continue-on-collection-errors", "--junitxml=" + out], cwd=repo, env=dict(env, PYTHONPATH=repo),
                stdout=subprocess.DEVNULL, stderr=subprocess.DEVNULL)
 passed = set()
 for tc in ET.parse(out).getroot().iter("testcase"):
